@@ -38,6 +38,41 @@ Definition find_big (t : list tev) (topic : list N) (size : N) : option (N * opt
   | _ => None
   end.
 
+(* a PUBLISH at the unparsed end of a connection's inbound bytes: the payload did not arrive
+   completely (the connection was lost in it), but level, topic and identifier did *)
+Definition partial_publish (tail : list N) : option (N * list N * option N * N) :=
+  match tail with
+  | h :: r =>
+    if h / 16 =? 3 then
+      match take_remlen r with
+      | Some (n, a :: b :: rest) =>
+        let tl := a * 256 + b in
+        let topic := firstn (N.to_nat tl) rest in
+        if N.of_nat (length topic) =? tl then
+          let q := (h / 2) mod 4 in
+          if q =? 0 then (if 2 + tl <=? n then Some (0, topic, None, n - 2 - tl) else None)
+          else match skipn (N.to_nat tl) rest with
+               | c :: d :: _ => if 4 + tl <=? n then Some (q, topic, Some (c * 256 + d), n - 4 - tl) else None
+               | _ => None
+               end
+        else None
+      | _ => None
+      end
+    else None
+  | [] => None
+  end.
+Definition find_big_any (t : list tev) (topic : list N) (size : N) : option (N * option N) :=
+  match find_big t topic size with
+  | Some f => Some f
+  | None =>
+    match flat_map (fun c => match partial_publish (snd (packets_of (in_bytes c t))) with
+                             | Some (q, tp, id, sz) => if list_eqb tp topic && (sz =? size) then [(q, id)] else []
+                             | None => [] end) (conns t) with
+    | f :: _ => Some f
+    | [] => None
+    end
+  end.
+
 (* outbound packets with the trace position of the write that completed them *)
 Fixpoint lo_get (l : list (N * list N)) (c : N) : list N :=
   match l with [] => [] | (c', b) :: r => if c' =? c then b else lo_get r c end.
@@ -115,7 +150,7 @@ Definition rx_step (t : list tev) (s : rx) (m : list (N * list N)) (e : tev) : r
     | RetMsg topic msg => deliver (find_pub (upto_call i t) topic msg)
     | RetBig topic size =>
       (* the payload is read later (ReadAll or skip); if the connection is lost before, we cannot tell *)
-      match find_big t topic size with
+      match find_big_any t topic size with
       | Some f => deliver (Some f)
       | None => (mkRx (rx_owe1 s) (rx_owe2 s) true, ok)
       end
@@ -170,8 +205,11 @@ Fixpoint acked_before_next (t : list tev) (rest : list tev) (owed : list (N * N)
     acked_before_next t r (match find_pub (upto_call j t) topic msg with
                            | Some (q, Some id) => if q =? 0 then [] else [(q, id)]
                            | _ => [] end)
-  | TRet j OpRead (RetBig _ _) _ _ _ :: r =>
-    forallb (fun o => acked_by_call t (fst o) (snd o) j) owed && acked_before_next t r []
+  | TRet j OpRead (RetBig topic size) _ _ _ :: r =>
+    forallb (fun o => acked_by_call t (fst o) (snd o) j) owed &&
+    acked_before_next t r (match find_big_any t topic size with
+                           | Some (q, Some id) => if q =? 0 then [] else [(q, id)]
+                           | _ => [] end)
   | TRet _ (OpAdopt _ _) (RetAdopt _ 0) _ _ _ :: r => acked_before_next t r []
   | _ :: r => acked_before_next t r owed
   end.
@@ -316,6 +354,11 @@ Definition settled_acks (t : list tev) : bool :=
                         | Some (q, Some id) => (q =? 0) || acked_by_call t q id last
                         | _ => true
                         end
+                      | TRet j OpRead (RetBig topic size) _ _ _ =>      (* read or skipped: acknowledged either way *)
+                        match find_big_any t topic size with
+                        | Some (q, Some id) => (q =? 0) || acked_by_call t q id last
+                        | _ => true
+                        end
                       | _ => true end) ep
   else true.
 
@@ -435,10 +478,25 @@ Definition own_exchange (t : list tev) : bool := rewritten t || fold_trace (xk_s
 Definition c01_ok (h : histcase) : bool :=
   let t := trace_of h in
   no_panic t && fold_trace (tx_step t) (s_max1 (cfg_of h), s_max2 (cfg_of h)) [] t
-  && no_publish_after_pubrec t && settled_exchanges t && resend_complete t && own_exchange t.
+  && no_publish_after_pubrec t && settled_exchanges t && resend_complete t && own_exchange t
+  (* "written to the broker in full": what a connection carries is whole packets *)
+  && forallb (conn_whole t) (conns t).
 (* C03 also needs the applied exactly-once limit within the identifier space (no identifier
    is given out again before its PUBCOMP) *)
-Definition c03_ok (h : histcase) : bool := c01_ok h && (s_max2 (cfg_of h) <=? 16384).
+(* C03: and no PUBREL on the wire unless the PUBREL is recorded (the release is saved before it is
+   sent: a PUBREL the broker saw while the Persistence still holds the PUBLISH lets a restart or
+   a reconnect transmit that PUBLISH as a new message).  Not judged on rewritten stores. *)
+Definition pubrel_recorded (t : list tev) : bool :=
+  rewritten t ||
+  forallb (fun x => match x with
+                    | (_, PPubrel id, pos, _) =>
+                      match obs_get (store_at t pos) id with
+                      | Some v => is_pubrel_rec v
+                      | None => false
+                      end
+                    | _ => true end) (out_packets t).
+Definition c03_ok (h : histcase) : bool :=
+  c01_ok h && (s_max2 (cfg_of h) <=? 16384) && pubrel_recorded (trace_of h).
 
 Definition hist_run (ok : histcase -> bool) (l : list histcase) : list N * list N * list (N * N) :=
   (idx_filter hist_agree l 0, idx_filter ok l 0, []).
@@ -692,10 +750,29 @@ Definition cs_step (h : histcase) (t : list tev) (s : cs) (m : list (N * list N)
   | _ => (s, true)
   end.
 
+(* the other direction: ErrDown means that the last connect attempt failed.  While the last attempt
+   is known to have succeeded (the ReadSlices call that made it ended online, and none was made
+   since: the connection may have been lost meanwhile, which leaves the client pending), a
+   request waits or goes out; it does not come back with ErrDown.  State: (up, closed). *)
+Definition up_step (t : list tev) (s : bool * bool) (m : list (N * list N)) (e : tev) : (bool * bool) * bool :=
+  let '(up, closed) := s in
+  match e with
+  | TRet i OpRead _ done _ online =>
+    let attempted := call_loaded_cid t i in
+    let up' := if attempted then online else up in
+    ((up', closed),
+     closed || negb (attempted && online) || forallb (fun d => negb (has_bit (snd (fst d)) 4)) done)
+  | TRet _ (OpAdopt _ _) (RetAdopt _ 0) _ _ _ => ((false, false), true)
+  | TRet _ o (RetErr er) _ _ _ =>
+    (match o with OpClose | OpDisconnect => (up, true) | _ => s end,
+     negb (spawn_op o && up && negb closed && has_bit er 4))
+  | _ => (s, true)
+  end.
+
 Definition c18_ok (h : histcase) : bool :=
   let t := trace_of h in
   no_panic t && forallb (conn_setup_ok h t) (conns t) && fold_trace (cs_step h t) (mkCs false false) [] t
-  && resend_complete t.
+  && resend_complete t && fold_trace (up_step t) (false, false) [] t.
 
 Definition c05_run := hist_run c05_ok.
 Definition c17_run := hist_run c17_ok.
@@ -904,6 +981,9 @@ Definition c16_gen (lenient : bool) (h : histcase) : bool :=
   no_panic t && fold_trace (adopt_step lenient t) (false, false) [] t.
 Definition c16_ok := c16_gen false.
 Definition c02_ok (h : histcase) : bool := c16_gen true h && c01_ok h && c05_ok h.
+(* C05 "after a restart all unacknowledged ones are retransmitted": an adoption that drops records
+   (warnings) turns the resend rule off, so C05 judges the adoptions as well *)
+Definition c05_full (h : histcase) : bool := c05_ok h && c16_gen true h.
 
 (* F15 (recorded finding): the client identifier record is damaged or removed *)
 Definition f15_match (h : histcase) : bool :=
@@ -915,6 +995,7 @@ Definition f15_match (h : histcase) : bool :=
 Definition c13_run := hist_run c13_ok.
 Definition c14_run := hist_run c14_ok.
 Definition c02_run := hist_run c02_ok.
+Definition c05_run_full := hist_run c05_full.
 Fixpoint idx_known (f : histcase -> bool) (ok : histcase -> bool) (l : list histcase) (i : N) (tag : N) : list (N * N) :=
   match l with
   | [] => []
